@@ -1,5 +1,6 @@
 import ParryModel.Proto
 import ParryModel.C09.Model
+import ParryModel.C09.Model2
 /-! C09 protocol handlers: model evaluation at `Float` and exact-`Rat` oracles on implementation output. -/
 namespace C09
 open Model Proto
@@ -69,6 +70,34 @@ def tight3 (b : Aabb3 Float) (pts : List (V3 Rat)) : Bool :=
   let t : Rat := 1 / 1000000
   (List.range 3).all fun i =>
     pts.any (fun p => leTol (B.maxs.get i) (p.get i) t) && pts.any (fun p => leTol (p.get i) (B.mins.get i) t)
+
+
+/-! ### part 2 helpers -/
+def fsphere (s : Sphere3 Float) : String := s!"{fv3 s.center} {ff s.radius}"
+def psphere : P (Sphere3 Float) := do let c ← pv3; let r ← pf; pure ⟨c, r⟩
+def posphere : P (Sphere3 Float) := do let x ← pfo; let y ← pfo; let z ← pfo; let r ← pfo; pure ⟨⟨x, y, z⟩, r⟩
+def tol9 : Rat := 1 / 1000000000
+/-- all points within the sphere (squared comparison, relative tolerance) -/
+def ptsInSphere (s : Sphere3 Float) (pts : List (V3 Rat)) (pad : Rat := 0) : String :=
+  if !(finite3 s.center && FloatIO.isFinite s.radius) then "fail nonfinite-output" else
+  let C := q3 s.center; let R := q s.radius - pad
+  if R < -(tol9) then "fail radius-smaller-than-shape-radius" else
+  match pts.filter (fun p => !(leTol ((p.sub C).normSq) (R * R) tol9)) with
+  | [] => "pass"
+  | p :: _ => s!"fail shape-point-outside-sphere ({p.x},{p.y},{p.z})"
+def psimd : P (SimdAabb3 Float) := do let a ← paabb3; let b ← paabb3; let c ← paabb3; let d ← paabb3; pure ⟨a, b, c, d⟩
+def fbools (l : List Bool) : String := String.intercalate " " (l.map fb)
+def fboxes (l : List (Aabb3 Float)) : String := String.intercalate " " (l.map faabb3)
+def poboxes4 : P (List (Aabb3 Float)) := do let a ← poaabb3; let b ← poaabb3; let c ← poaabb3; let d ← poaabb3; pure [a, b, c, d]
+def fext (e : Ext Float) : String := match e with
+  | .negInf => "fff0000000000000" | .posInf => "7ff0000000000000" | .fin v => ff v
+def feint (i : EInterval Float) : String := s!"{fext i.lo} {fext i.hi}"
+/-- extended rational: none = -inf / +inf by position -/
+def qext (t : String) : Option (Option Rat) :=
+  if t = "fff0000000000000" || t = "7ff0000000000000" then some none
+  else match FloatIO.ofHex? t with | some x => if FloatIO.isFinite x then some (some (q x)) else none | none => none
+def inPiece (lo hi : Option Rat) (w : Rat) : Bool :=
+  (match lo with | none => true | some l => leTol l w tol9) && (match hi with | none => true | some h => leTol w h tol9)
 
 def withOut {α} (p : P α) (out : List String) (k : α → String) : String :=
   match out with
@@ -256,6 +285,163 @@ def handler (fn : String) : Option Handler :=
             let pts := [M.act (q3 p), M.act (q3 p'), M.act (q3 p'')]
             let res := allIn3 b pts
             if res != "pass" then res else if tight3 b pts then "pass" else "fail not-tight"
+        | none => "skip bad-args" }
+  | "ball_bsphere" => some {
+      model := fun a => run (do let r ← pf; let m ← piso3; pure (fsphere (ballSphere r m))) a
+      oracle := fun a o => match run (do let r ← pf; let m ← piso3; pure (r, m)) a with
+        | some (r, m) => withOut posphere o fun s => ptsInSphere s [q3 m.t] (q r)
+        | none => "skip bad-args" }
+  | "cuboid_bsphere" => some {
+      model := fun a => run (do let he ← pv3; let m ← piso3; pure (fsphere (cuboidSphere he m))) a
+      oracle := fun a o => match run (do let he ← pv3; let m ← piso3; pure (he, m)) a with
+        | some (he, m) => withOut posphere o fun s => let H := q3 he; ptsInSphere s ((corners3 ⟨H.neg, H⟩).map (qiso3 m).act)
+        | none => "skip bad-args" }
+  | "capsule_bsphere" => some {
+      model := fun a => run (do let p ← pv3; let p' ← pv3; let r ← pf; let m ← piso3; pure (fsphere (capsuleSphere p p' r m))) a
+      oracle := fun a o => match run (do let p ← pv3; let p' ← pv3; let r ← pf; let m ← piso3; pure (p, p', r, m)) a with
+        | some (p, p', r, m) => withOut posphere o fun s => ptsInSphere s [(qiso3 m).act (q3 p), (qiso3 m).act (q3 p')] (q r)
+        | none => "skip bad-args" }
+  | "cone_bsphere" => some {
+      model := fun a => run (do let hh ← pf; let r ← pf; let m ← piso3; pure (fsphere (coneSphere hh r m))) a
+      oracle := fun a o => match run (do let hh ← pf; let r ← pf; let m ← piso3; pure (hh, r, m)) a with
+        | some (hh, r, m) => withOut posphere o fun s =>
+            let H := q hh; let R := q r
+            ptsInSphere s (([⟨0, H, 0⟩, ⟨R, -H, 0⟩, ⟨-R, -H, 0⟩, ⟨0, -H, R⟩, ⟨0, -H, -R⟩, ⟨R * 3 / 5, -H, R * 4 / 5⟩] : List (V3 Rat)).map (qiso3 m).act)
+        | none => "skip bad-args" }
+  | "cyl_bsphere" => some {
+      model := fun a => run (do let hh ← pf; let r ← pf; let m ← piso3; pure (fsphere (cylinderSphere hh r m))) a
+      oracle := fun a o => match run (do let hh ← pf; let r ← pf; let m ← piso3; pure (hh, r, m)) a with
+        | some (hh, r, m) => withOut posphere o fun s =>
+            let H := q hh; let R := q r
+            ptsInSphere s (([⟨R, H, 0⟩, ⟨-R, -H, 0⟩, ⟨0, H, R⟩, ⟨0, -H, -R⟩, ⟨R * 3 / 5, H, R * 4 / 5⟩, ⟨-R * 3 / 5, -H, R * 4 / 5⟩] : List (V3 Rat)).map (qiso3 m).act)
+        | none => "skip bad-args" }
+  | "triangle_bsphere" => some {
+      model := fun a => run (do let p ← pv3; let p' ← pv3; let p'' ← pv3; let m ← piso3; pure (fsphere (triangleSphere p p' p'' m))) a
+      oracle := fun a o => match run (do let p ← pv3; let p' ← pv3; let p'' ← pv3; let m ← piso3; pure ([p, p', p''], m)) a with
+        | some (ps, m) => withOut posphere o fun s => ptsInSphere s (ps.map fun p => (qiso3 m).act (q3 p))
+        | none => "skip bad-args" }
+  | "segment_bsphere" => some {
+      model := fun a => run (do let p ← pv3; let p' ← pv3; let m ← piso3; pure (fsphere (segmentSphere p p' m))) a
+      oracle := fun a o => match run (do let p ← pv3; let p' ← pv3; let m ← piso3; pure ([p, p'], m)) a with
+        | some (ps, m) => withOut posphere o fun s => ptsInSphere s (ps.map fun p => (qiso3 m).act (q3 p))
+        | none => "skip bad-args" }
+  | "bsphere_merged" => some {
+      model := fun a => run (do let x ← psphere; let y ← psphere; pure (fsphere (x.merged y))) a
+      oracle := fun a o => match run (do let x ← psphere; let y ← psphere; pure (x, y)) a with
+        | some (x, y) => withOut posphere o fun s =>
+            let r1 := ptsInSphere s [q3 x.center] (q x.radius)
+            if r1 != "pass" then r1 else ptsInSphere s [q3 y.center] (q y.radius)
+        | none => "skip bad-args" }
+  | "bsphere_intersects" => some {
+      model := fun a => run (do let x ← psphere; let y ← psphere; pure (fb (x.intersects y))) a
+      oracle := fun a o => match run (do let x ← psphere; let y ← psphere; pure (x, y)) a with
+        | some (x, y) =>
+          let d2 := ((q3 y.center).sub (q3 x.center)).normSq; let sr := q x.radius + q y.radius
+          -- skip the rounding-sensitive band around tangency
+          if rabs (d2 - sr * sr) ≤ tol9 * (1 + d2 + sr * sr) then "skip near-tangent" else
+          if o = [fb (decide (d2 ≤ sr * sr))] then "pass" else "fail intersects-verdict"
+        | none => "skip bad-args" }
+  | "bsphere_contains" => some {
+      model := fun a => run (do let x ← psphere; let y ← psphere; pure (fb (x.contains y))) a
+      oracle := fun a o => match run (do let x ← psphere; let y ← psphere; pure (x, y)) a with
+        | some (x, y) =>
+          let d2 := ((q3 y.center).sub (q3 x.center)).normSq; let dr := q x.radius - q y.radius
+          if rabs (d2 - dr * dr) ≤ tol9 * (1 + d2 + dr * dr) then "skip near-tangent" else
+          let ex := decide (0 ≤ dr) && decide (d2 ≤ dr * dr)
+          if o = [fb ex] then "pass" else "fail contains-verdict"
+        | none => "skip bad-args" }
+  | "simd_contains" => some {
+      model := fun a => run (do let x ← psimd; let y ← psimd; pure (fbools (x.contains y))) a
+      oracle := fun a o => match run (do let x ← psimd; let y ← psimd; pure (x, y)) a with
+        | some (x, y) =>
+          let ex := (x.lanes.zip y.lanes).map fun (X, Y) =>
+            let X := qaabb3 X; let Y := qaabb3 Y
+            (List.range 3).all fun i => decide (X.mins.get i ≤ Y.mins.get i) && decide (Y.maxs.get i ≤ X.maxs.get i)
+          if o = ex.map fb then "pass" else s!"fail lane-differs-from-scalar-contains expected={fbools ex}"
+        | none => "skip bad-args" }
+  | "simd_intersects" => some {
+      model := fun a => run (do let x ← psimd; let y ← psimd; pure (fbools (x.intersects y))) a
+      oracle := fun a o => match run (do let x ← psimd; let y ← psimd; pure (x, y)) a with
+        | some (x, y) =>
+          let ex := (x.lanes.zip y.lanes).map fun (X, Y) =>
+            let X := qaabb3 X; let Y := qaabb3 Y
+            (List.range 3).all fun i => decide (X.mins.get i ≤ Y.maxs.get i) && decide (Y.mins.get i ≤ X.maxs.get i)
+          if o = ex.map fb then "pass" else s!"fail lane-differs-from-scalar-intersects expected={fbools ex}"
+        | none => "skip bad-args" }
+  | "simd_contains_point" => some {
+      model := fun a => run (do let x ← psimd; let p ← pv3; pure (fbools (x.lanes.map (SimdAabb3.lanePoint · p)))) a
+      oracle := fun a o => match run (do let x ← psimd; let p ← pv3; pure (x, p)) a with
+        | some (x, p) =>
+          let P := q3 p
+          let ex := x.lanes.map fun X => let X := qaabb3 X
+            (List.range 3).all fun i => decide (X.mins.get i ≤ P.get i) && decide (P.get i ≤ X.maxs.get i)
+          if o = ex.map fb then "pass" else s!"fail lane-differs-from-scalar-contains-point expected={fbools ex}"
+        | none => "skip bad-args" }
+  | "simd_scaled" => some {
+      model := fun a => run (do let x ← psimd; let s ← pv3; pure (fboxes (x.scaled s))) a
+      oracle := fun a o => match run (do let x ← psimd; let s ← pv3; pure (x, s)) a with
+        | some (x, s) => withOut poboxes4 o fun rs =>
+            match ((x.lanes.zip rs).map fun (X, r) => allIn3 r ((samplePts3 (qaabb3 X)).map (·.cmul (q3 s)))).filter (· != "pass") with
+            | [] => "pass" | e :: _ => e
+        | none => "skip bad-args" }
+  | "simd_loosen" => some {
+      model := fun a => run (do let x ← psimd; let m ← pf; pure (fboxes (x.loosen m))) a
+      oracle := fun a o => match run (do let x ← psimd; let m ← pf; pure (x, m)) a with
+        | some (x, _) => withOut poboxes4 o fun rs =>
+            match ((x.lanes.zip rs).map fun (X, r) => allIn3 r (corners3 (qaabb3 X))).filter (· != "pass") with
+            | [] => "pass" | e :: _ => e
+        | none => "skip bad-args" }
+  | "simd_dilate" => some {
+      model := fun a => run (do let x ← psimd; let f ← pf; pure (fboxes (x.lanes.map (SimdAabb3.dilateLane · f)))) a
+      oracle := fun a o => match run (do let x ← psimd; let f ← pf; pure (x, f)) a with
+        | some (x, _) => withOut poboxes4 o fun rs =>
+            match ((x.lanes.zip rs).map fun (X, r) =>
+                -- valid lanes must still contain the original box; invalid sentinel lanes must be left unchanged
+                if q X.mins.x ≤ q X.maxs.x then allIn3 r (corners3 (qaabb3 X))
+                else if faabb3 r == faabb3 X then "pass" else "fail invalid-lane-modified").filter (· != "pass") with
+            | [] => "pass" | e :: _ => e
+        | none => "skip bad-args" }
+  | "simd_merged" => some {
+      model := fun a => run (do let x ← psimd; pure (faabb3 x.toMerged)) a
+      oracle := fun a o => match run psimd a with
+        | some x => withOut poaabb3 o fun r =>
+            -- invalid sentinel lanes (mins > maxs) are the neutral element of the merge and contribute no point
+            let pts := (x.lanes.filter fun X => q X.mins.x ≤ q X.maxs.x).flatMap fun X => corners3 (qaabb3 X)
+            if pts.isEmpty then "skip all-lanes-invalid" else
+            let res := allIn3 r pts
+            if res != "pass" then res else if tight3 r pts then "pass" else "fail not-tight"
+        | none => "skip bad-args" }
+  | "simd_dist_point" => some {
+      model := fun a => run (do let x ← psimd; let p ← pv3; pure (String.intercalate " " (x.lanes.map fun b => ff (SimdAabb3.laneDistPoint b p)))) a
+      oracle := fun a o => match run (do let x ← psimd; let p ← pv3; pure (x, p)) a with
+        | some (x, p) => withOut (do let a ← pfo; let b ← pfo; let c ← pfo; let d ← pfo; pure [a, b, c, d]) o fun ds =>
+            let P := q3 p
+            let bad := (x.lanes.zip ds).filter fun (X, d) =>
+              let X := qaabb3 X
+              let cl (v lo hi : Rat) : Rat := if v < lo then lo - v else if v > hi then v - hi else 0
+              let d2 := cl P.x X.mins.x X.maxs.x ^ 2 + cl P.y X.mins.y X.maxs.y ^ 2 + cl P.z X.mins.z X.maxs.z ^ 2
+              !(FloatIO.isFinite d) || q d < 0 || !(rabs (q d * q d - d2) ≤ tol9 * (1 + d2))
+            if bad.isEmpty then "pass" else "fail lane-distance-wrong"
+        | none => "skip bad-args" }
+  | "interval_div" => some {
+      model := fun a => run (do let x ← pinterval; let y ← pinterval
+                                let (p1, p2) := x.div y
+                                pure (match p2 with | none => feint p1 ++ " none" | some p => feint p1 ++ " " ++ feint p)) a
+      oracle := fun a o => match run (do let x ← pinterval; let y ← pinterval; pure (x, y)) a with
+        | some (x, y) =>
+          let pieces : Option (List (Option Rat × Option Rat)) := match o with
+            | [a, b, "none"] => (do let l ← qext a; let h ← qext b; pure [(l, h)])
+            | [a, b, c, d] => (do let l ← qext a; let h ← qext b; let l2 ← qext c; let h2 ← qext d; pure [(l, h), (l2, h2)])
+            | _ => none
+          match pieces with
+          | none => "fail unparsable-or-nan-output"
+          | some ps =>
+            let X : Interval Rat := ⟨q x.lo, q x.hi⟩; let Y : Interval Rat := ⟨q y.lo, q y.hi⟩
+            let bad := (samples X).flatMap fun u => (samples Y).filterMap fun v =>
+              if v = 0 then none else if ps.any (fun (l, h) => inPiece l h (u / v)) then none else some (u, v)
+            match bad with
+            | [] => "pass"
+            | (u, v) :: _ => s!"fail quotient-not-enclosed u={u} v={v} u/v={u / v}"
         | none => "skip bad-args" }
   | _ => none
 
